@@ -53,6 +53,11 @@ def string_write_rules(prog, rep):
         parts = b.parts
         ok_struct = len(parts) >= 2 and parts[0][0] == "enc" and parts[1][0] == "const" and parts[1][1][:1] == b"\x00" and set(parts[1][1]) <= {0} \
             and all(p[0] in ("zeros",) or (p[0] == "const" and set(p[1]) <= {0}) for p in parts[2:])
+        # the terminator may be the first byte of the zero fill: encoded text + k zero bytes with k >= 1 on this path
+        from ..strings import implied_nonneg
+        if not ok_struct and len(parts) >= 2 and parts[0][0] == "enc" and parts[1][0] == "zeros" and implied_nonneg(parts[1][1], nonneg, at_least=1) \
+                and all(p[0] in ("zeros",) or (p[0] == "const" and set(p[1]) <= {0}) for p in parts[2:]):
+            ok_struct = True
         if ok_struct:
             rep.ok("str-terminated", f"{fq}: returns encoded text + NUL + zero bytes", nontrivial=True)
         else:
